@@ -32,6 +32,7 @@ def _cases(tier, seed):
     th = tier == 'thorough'
     cs = []
     shapes = [[3], [1], [2, 3], [1, 3], [3, 1], [2, 3, 4], [2, 1, 3], [1, 1, 2]]
+    rank1 = {'[2, 3, 4]': [1, 1, 3, 1], '[2, 1, 3]': [1, 1, 1, 1], '[2, 3]': [1, 1, 1]}
     if th:
         shapes += [[3, 2, 1], [2, 3, 2, 2], [1, 2, 1, 3], [2, 2, 1, 2, 2]]
     for N in shapes:
@@ -48,6 +49,10 @@ def _cases(tier, seed):
             combos = rng.sample(combos, 60 if not th else 400)
         for c in combos:
             cs.append({'scen': 'tt_getitem', 's': {'N': N, 'R': R, 'dtype': 'float64', 'index': [list(k) for k in c]}})
+        if str(N) in rank1:
+            # rank-1 bonds next to integer-indexed modes
+            for c in combos[::3]:
+                cs.append({'scen': 'tt_getitem', 's': {'N': N, 'R': rank1[str(N)], 'dtype': 'float64', 'index': [list(k) for k in c]}})
         # None insertions
         base = [['slice', None, None, None] if i % 2 == 0 else ['symint', N[i]] for i in range(d)]
         for pos in range(d + 1):
